@@ -48,7 +48,7 @@ class BooleanProxy(AnyAtomicType):
         elif not isinstance(value, str):
             raise TypeError('invalid type {!r} for xs:{}'.format(type(value), cls.name))
 
-        if value.strip() not in BOOLEAN_VALUES:
+        if value.strip(' \t\n\r') not in BOOLEAN_VALUES:
             raise ValueError('invalid value {!r} for xs:{}'.format(value, cls.name))
         return 't' in value or '1' in value
 
